@@ -23,6 +23,7 @@ Randomised methods (surrogates, shuffles, random copies) take part only as
 interferers, with both library RNGs seeded from integers in the case.
 """
 import inspect
+import zlib
 
 import numpy as np
 from hypothesis import strategies as st
@@ -379,15 +380,18 @@ class Session:
 
     def build(self):
         seed_library_rngs(self.case.get("seed", 0), 1)
-        if self.report:
-            ok, obj = self.rec.call("construct/" + self.cls,
-                                    self.fam.construct, self.case, self.inp)
-        else:
-            try:
-                ok, obj = True, self.fam.construct(self.case, self.inp)
-            except Exception as e:  # pylint: disable=broad-except
-                ok, obj = False, e
+        # a constructor that rejects its input is not a purity question
+        # (C05/C07/C09 decide that): counted, not failed
+        try:
+            ok, obj = True, self.fam.construct(self.case, self.inp)
+        except HarnessError:
+            raise
+        except Exception as e:  # pylint: disable=broad-except
+            ok, obj = False, e
         if not ok:
+            if self.report:
+                self.rec.label("construct_raised:%s:%s" % (
+                    self.cls, type(obj).__name__))
             return False
         self.obj = obj
         self.ok = True
@@ -395,6 +399,13 @@ class Session:
         self.shared_snaps = {k: snap(v) for k, v in
                              self.fam.shared(obj, self.inp).items()}
         return True
+
+    def own(self, call):
+        if call.startswith("new:"):
+            return call[4:] + "ClimateNetwork.__init__"
+        if call in self.tab and self.obj is not None:
+            return owner(self.obj, self.tab[call], self.cls)
+        return self.cls
 
     def check_inputs(self, call, exempt):
         """Compare every caller-owned input with its snapshot.  After a
@@ -411,7 +422,7 @@ class Session:
                 self.snaps[k] = s
                 continue
             if self.report:
-                self.rec.fail("input/%s:%s:%s" % (self.cls, call, k),
+                self.rec.fail("input/%s:%s:%s" % (self.own(call), call, k),
                               snap_diff(self.snaps[k], s))
             if k in self.fam.aliased:
                 self.dead = True
@@ -424,11 +435,17 @@ class Session:
         if not self.shared_snaps:
             return
         cur = self.fam.shared(self.obj, self.inp)
+        seen = set()
         for k, v in cur.items():
             s = snap(v)
             if k in self.shared_snaps and s != self.shared_snaps[k]:
+                if id(v) in seen:       # same array under a second name
+                    self.shared_snaps[k] = snap(v)
+                    continue
+                seen.add(id(v))
                 if self.report:
-                    self.rec.fail("input/%s:%s:%s" % (self.cls, call, k),
+                    self.rec.fail("input/%s:%s:%s" % (self.own(call), call,
+                                                      k),
                                   snap_diff(self.shared_snaps[k], s))
                 if _restore(v, self.shared_snaps[k]):
                     continue
@@ -440,7 +457,8 @@ class Session:
             now = canon(ref)
             if not same(now, c, 0.0):
                 if self.report:
-                    self.rec.fail("stale/%s:%s->%s" % (self.cls, call, qn),
+                    self.rec.fail("stale/%s:%s->%s" % (self.own(call), call,
+                                                       qn),
                                   "value returned earlier by %s changed "
                                   "during %s: %s" % (qn, call,
                                                      where_diff(c, now)))
@@ -449,6 +467,12 @@ class Session:
     def run(self, qname, seed):
         """Execute one query; returns ("val", canon) / ("exc", type name)."""
         q = self.tab[qname]
+        # the seed is a function of (case, query), not of the position: a
+        # method that draws random numbers internally (kNN tie-breaking
+        # noise, ARPACK start vectors) is a deterministic function of the
+        # seed and is comparable with its isolated evaluation
+        seed = (self.case.get("seed", 0) * 1000003 +
+                zlib.crc32(qname.encode())) % (2 ** 31)
         seed_library_rngs(seed, seed + 1)
         try:
             val = q.fn(self.obj, self.inp)
@@ -461,11 +485,29 @@ class Session:
             out = ("val", canon(val))
         self.check_inputs(qname, q.inplace_ok)
         self.check_shared(qname)
-        self.check_held(qname)
+        if not self.dead:
+            self.check_held(qname)
         if out[0] == "val" and val is not None and not isinstance(
                 val, (bool, int, float, str, complex, np.generic)):
             self.held.append((qname, val, out[1]))
         return out
+
+
+def owner(obj, q, default):
+    """Name of the class that defines the method a query exercises (one
+    root cause = one signature, whatever subclass the object has)."""
+    name = q.method.split(".")
+    target = obj
+    for part in name[:-1]:
+        target = getattr(target, part, None)
+    for k in type(target).__mro__:
+        if name[-1] in k.__dict__:
+            return k.__name__
+    if isinstance(target, type):
+        for k in target.__mro__:
+            if name[-1] in k.__dict__:
+                return k.__name__
+    return default
 
 
 def outcome_same(a, b, tol):
@@ -530,6 +572,9 @@ def run_sequence(fam, case, rec, steps):
         q = s.tab[qname]
         out = s.run(qname, seed + k)
         rec.label("outcome:" + out[0])
+        if out[0] == "exc":
+            rec.label("raises:%s:%s:%s" % (cls, qname,
+                                           out[1].split(":")[0]))
         if s.dead:
             rec.label("stopped_after_input_modification")
             break
@@ -541,13 +586,14 @@ def run_sequence(fam, case, rec, steps):
         if not outcome_same(out, iso, q.tol):
             culprit = blame(fam, case, rec, steps, k, q.tol) if k else \
                 "<none>"
-            rec.fail("order/%s:%s->%s" % (cls, culprit, qname),
+            rec.fail("order/%s:%s->%s" % (s.own(culprit), culprit, qname),
                      "in sequence %s ; isolated %s ; %s" % (
                          _show(out), _show(iso),
                          where_diff(iso[1], out[1])
                          if out[0] == iso[0] == "val" else ""))
         elif qname in last and not outcome_same(out, last[qname], q.tol):
-            rec.fail("order/%s:%s->%s" % (cls, prev_name, qname),
+            rec.fail("order/%s:%s->%s" % (s.own(prev_name), prev_name,
+                                          qname),
                      "differs from its own earlier value")
         last[qname] = out
         if prev_name is not None and prev_name != qname:
@@ -555,7 +601,7 @@ def run_sequence(fam, case, rec, steps):
         if rep:
             out2 = s.run(qname, seed + k)
             if not outcome_same(out2, out, q.tol):
-                rec.fail("repeat/%s:%s" % (cls, qname),
+                rec.fail("repeat/%s:%s" % (s.own(qname), qname),
                          "first %s ; second %s" % (_show(out), _show(out2)))
             rec.label("repeated")
         prev_name = qname
@@ -905,6 +951,11 @@ def grid_explicit(P="grid."):
         Q(P + "geometric_distance_distribution(3)",
           P + "geometric_distance_distribution",
           _meth(P + "geometric_distance_distribution", 3)),
+        Q(P + "RegularGrid(time,(lat2,lon2))", P + "RegularGrid",
+          _meth(P + "RegularGrid", "$time_seq", "$latlon", 3)),
+        Q(P + "coord_sequence_from_rect_grid(lat2,lon2)",
+          P + "coord_sequence_from_rect_grid",
+          _meth(P + "coord_sequence_from_rect_grid", "$lat2", "$lon2")),
     ]
 
 
@@ -961,6 +1012,8 @@ def geo_inputs(case, inp):
     inp["pos"] = np.array([0.5, 0.5, np.sqrt(0.5)])
     inp["lat2"] = np.array(case["lat"], dtype=float)
     inp["lon2"] = np.array(case["lon"], dtype=float)
+    inp["latlon"] = (np.array(case["lat"][:2], dtype=float),
+                     np.array(case["lon"][:3], dtype=float))
     return inp
 
 
@@ -1041,6 +1094,92 @@ def geo_cases(draw):
     return case
 
 
+# ================================================== SpatialNetwork + Grid
+
+def spatial_table():
+    from pyunicorn.core import SpatialNetwork, Grid, Network
+    ex = [
+        Q("link_distance_distribution(3)", "link_distance_distribution",
+          _meth("link_distance_distribution", 3)),
+        Q("link_distance_distribution(3,euclidean,True)",
+          "link_distance_distribution",
+          _meth("link_distance_distribution", 3, "euclidean", True)),
+        Q("average_link_distance(True)", "average_link_distance",
+          _meth("average_link_distance", True)),
+        Q("inaverage_link_distance(True)", "inaverage_link_distance",
+          _meth("inaverage_link_distance", True)),
+        Q("outaverage_link_distance(True)", "outaverage_link_distance",
+          _meth("outaverage_link_distance", True)),
+    ]
+    tab = build_table(SpatialNetwork, GEO_NOT_QUERIES, ex,
+                      skip_auto=set(_public(Network)))
+    P = "grid."
+    gex = [
+        Q(P + "node_number(x)", P + "node_number",
+          _meth(P + "node_number", "$xy")),
+        Q(P + "node_coordinates(1)", P + "node_coordinates",
+          _meth(P + "node_coordinates", 1)),
+        Q(P + "sequence(1)", P + "sequence", _meth(P + "sequence", 1)),
+        Q(P + "geometric_distance_distribution(3)",
+          P + "geometric_distance_distribution",
+          _meth(P + "geometric_distance_distribution", 3)),
+        Q(P + "RegularGrid(time,space_grid)", P + "RegularGrid",
+          _meth(P + "RegularGrid", "$time_seq", "$space_grid", 3)),
+        Q(P + "coord_sequence_from_rect_grid(space_grid)",
+          P + "coord_sequence_from_rect_grid",
+          _meth(P + "coord_sequence_from_rect_grid", "$space_grid")),
+    ]
+    tab.update(build_table(Grid, GRID_NOT_QUERIES, gex, prefix=P))
+    base = cached_table("Network", network_table)
+    for k in NET_BASE + ["closeness(la)", "find_link_attribute(la)"]:
+        tab[k] = base[k]
+    return tab
+
+
+class SpatialFamily(Family):
+    name = "SpatialNetwork"
+
+    def inputs(self, case):
+        inp = graph_inputs(case)
+        inp["time_seq"] = np.arange(3.0)
+        inp["space_seq"] = np.array([case["lat"], case["lon"]], dtype=float)
+        inp["xy"] = np.array([10.0, 20.0])
+        inp["space_grid"] = np.array([[0.0, 5.0, 10.0], [1.0, 2.0, 4.0]])
+        return inp
+
+    def construct(self, case, inp):
+        from pyunicorn.core import SpatialNetwork, Grid
+        grid = Grid(inp["time_seq"], inp["space_seq"], silence_level=3)
+        net = SpatialNetwork(grid, adjacency=inp["adjacency"],
+                             directed=case["g"]["directed"], silence_level=3)
+        if "W" in inp:
+            net.set_link_attribute("la", inp["W"])
+        return net
+
+    def table(self, case):
+        return _applicable(cached_table("SpatialNetwork", spatial_table),
+                           graph_flags(case))
+
+
+SPATIAL = SpatialFamily()
+
+
+@st.composite
+def spatial_cases(draw):
+    directed = draw(st.integers(0, 2)) == 0
+    g = draw(G.graphs(3, 8, directed))
+    n = g["n"]
+    case = {"g": g, "w": [1.0] * n,
+            "lat": draw(st.lists(st.integers(-8, 8).map(float), min_size=n,
+                                 max_size=n)),
+            "lon": draw(st.lists(st.integers(-8, 8).map(float), min_size=n,
+                                 max_size=n)),
+            "W": draw(st.one_of(st.none(), G.link_attr(n, directed))),
+            "seed": draw(st.integers(0, 2 ** 20))}
+    case["seq"] = draw(_seq_strategy(sorted(SPATIAL.table(case))))
+    return case
+
+
 # ====================================================== InteractingNetworks
 
 def interacting_table():
@@ -1079,6 +1218,13 @@ def interacting_table():
                 ex.append(Q(name + "(la)", name,
                             _meth(name, *args, link_attribute="la"),
                             needs=("W",)))
+    # randomised derived networks: interferers (RandomlyRewireCrossLinks
+    # loops until a random proposal is accepted - hang risk - not called)
+    for name in ("RandomlySetCrossLinks", "RandomlySetCrossLinks_sparse"):
+        ex.append(Q(name + "(self,l1,l2,0.5)", name,
+                    (lambda nm: lambda o, inp: getattr(type(o), nm)(
+                        o, inp["l1"], inp["l2"], cross_link_density=0.5))(
+                            name), rand=True))
     own = build_table(InteractingNetworks, NETWORK_NOT_QUERIES, ex,
                       skip_auto=set(_public(Network)))
     # Network queries that share the memoised intermediates (path lengths,
@@ -1336,8 +1482,8 @@ class DataFamily(Family):
 
     def shared(self, obj, inp):
         # pylint: disable=protected-access
-        return {"data.observable()": obj.observable(),
-                "data.anomaly()": obj.anomaly(),
+        return {"data.anomaly()": obj.anomaly(),
+                "data.observable()": obj.observable(),
                 "data.phase_mean()": obj.phase_mean(),
                 "data._full_observable": obj._full_observable,
                 "data.grid": obj.grid._grid,
@@ -1363,7 +1509,8 @@ def climate_data_case(draw, n_min=3, n_max=6):
                         min_size=n, max_size=n))
     case = {"T": T, "n": n, "tc": tc, "data": data, "lat": lat, "lon": lon,
             "anomalies": draw(st.integers(0, 3)) == 0,
-            "winter": draw(st.integers(0, 3)) == 0,
+            # winter_only needs monthly data (documented NotImplementedError)
+            "winter": tc == 12 and draw(st.integers(0, 3)) == 0,
             "hdir": draw(st.booleans()),
             "delay": draw(st.integers(1, 3)),
             "thr": draw(st.sampled_from([0.1, 0.3, 0.6])),
@@ -1533,10 +1680,55 @@ class ClimNetFamily(Family):
 CLIMNET = ClimNetFamily()
 
 
+class RainfallStatics(Family):
+    """Static helpers of RainfallClimateNetwork on caller arrays."""
+    name = "RainfallClimateNetwork"
+
+    def inputs(self, case):
+        T, n = case["T"], case["n"]
+        x = np.array(case["data"], dtype=float).reshape(n, T) / 8.0
+        if case.get("fortran"):
+            x = np.asfortranarray(x)
+        return {"rain": x, "anomT": x - x.mean(axis=1)[:, None]}
+
+    def construct(self, case, inp):
+        from pyunicorn.climate import RainfallClimateNetwork
+        return RainfallClimateNetwork
+
+    def table(self, case):
+        return {q.name: q for q in [
+            Q("calculate_top_events(rain,(0,1))", "calculate_top_events",
+              _meth("calculate_top_events", "$rain", (0, 1))),
+            # quantiles other than 0 / 1 give a float index (IndexError)
+            Q("calculate_top_events(rain,[0,1])", "calculate_top_events",
+              _meth("calculate_top_events", "$rain", [0, 1])),
+            Q("rank_time_series(anomT)", "rank_time_series",
+              _meth("rank_time_series", "$anomT")),
+            Q("calculate_rainfall(rain,2,1)", "calculate_rainfall",
+              _meth("calculate_rainfall", "$rain", 2.0, 1.0))]}
+
+
+RAINSTAT = RainfallStatics()
+
+
+@st.composite
+def rainfall_cases(draw):
+    T, n = draw(st.integers(3, 8)), draw(st.integers(2, 4))
+    case = {"T": T, "n": n, "fortran": draw(st.booleans()),
+            "data": draw(st.lists(st.integers(0, 40), min_size=T * n,
+                                  max_size=T * n)), "seed": 0}
+    case["seq"] = draw(_seq_strategy(sorted(RAINSTAT.table(case)), 4))
+    return case
+
+
 @st.composite
 def climnet_cases(draw):
     case = draw(climate_data_case(4, 6))
-    case["cls"] = draw(st.sampled_from(CLIMATE_CLASSES))
+    # Rainfall: every value derives from a similarity matrix that depends on
+    # heap contents (int8 mask read through int*, C20); its static helpers
+    # are checked by the rainfall_statics sub-check instead
+    case["cls"] = draw(st.sampled_from(
+        [c for c in CLIMATE_CLASSES if c != "Rainfall"]))
     case["win"] = None
     case["thr"] = draw(st.sampled_from([0.05, 0.1, 0.3]))
     names = sorted(CLIMNET.table(case))
@@ -1545,6 +1737,504 @@ def climnet_cases(draw):
                                st.sampled_from(names)),
                      st.integers(0, 3).map(lambda v: int(v == 0))).map(list)
     case["seq"] = draw(st.lists(step, min_size=2, max_size=8))
+    return case
+
+
+
+# ======================================================== recurrence family
+
+RP_NOT_QUERIES = {"set_fixed_threshold", "set_fixed_threshold_std",
+                  "set_fixed_recurrence_rate",
+                  "set_fixed_local_recurrence_rate",
+                  "set_adaptive_neighborhood_size", "cache_clear",
+                  "clear_cache"}
+RP_RANDOM = {"twin_surrogates", "resample_diagline_dist",
+             "resample_vertline_dist"}
+RP_KINDS = {"rp": "RecurrencePlot", "rn": "RecurrenceNetwork",
+            "crp": "CrossRecurrencePlot", "jrp": "JointRecurrencePlot",
+            "jrn": "JointRecurrenceNetwork",
+            "isrn": "InterSystemRecurrenceNetwork"}
+NET_BASE = ["path_lengths", "degree", "local_clustering", "transitivity",
+            "prop:adjacency", "closeness", "betweenness",
+            "average_path_length", "prop:node_weights", "nsi_degree"]
+
+
+def rp_explicit():
+    ex = []
+    for m in ("supremum", "euclidean", "manhattan"):
+        ex.append(Q("distance_matrix(%s)" % m, "distance_matrix",
+                    _meth("distance_matrix", m)))
+    ex += [
+        Q("recurrence_probability(1)", "recurrence_probability",
+          _meth("recurrence_probability", 1)),
+        Q("resample_diagline_dist(5)", "resample_diagline_dist",
+          _meth("resample_diagline_dist", 5), rand=True),
+        Q("resample_vertline_dist(5)", "resample_vertline_dist",
+          _meth("resample_vertline_dist", 5), rand=True),
+        Q("twins(1)", "twins", _meth("twins", 1)),
+        Q("embed_time_series(ts,2,1)", "embed_time_series",
+          _meth("embed_time_series", "$ts", 2, 1)),
+        Q("legendre_coordinates(x1,2,t,2)", "legendre_coordinates",
+          _meth("legendre_coordinates", "$x1", 2, "$tarr", 2)),
+        Q("normalize_time_series(nts)", "normalize_time_series",
+          _meth("normalize_time_series", "$nts"), inplace_ok=("nts",)),
+        Q("rejection_sampling(hist,5)", "rejection_sampling",
+          _meth("rejection_sampling", "$hist", 5), rand=True),
+        Q("threshold_from_recurrence_rate(dist,0.3)",
+          "threshold_from_recurrence_rate",
+          _meth("threshold_from_recurrence_rate", "$dist", 0.3)),
+        Q("threshold_from_recurrence_rate_fast(dist,0.3,0.5)",
+          "threshold_from_recurrence_rate_fast",
+          _meth("threshold_from_recurrence_rate_fast", "$dist", 0.3, 0.5),
+          rand=True),
+        Q("bootstrap_distance_matrix(emb,supremum,5)",
+          "bootstrap_distance_matrix",
+          _meth("bootstrap_distance_matrix", "$emb", "supremum", 5),
+          rand=True),
+    ]
+    for m, a in (("determinism", 2), ("average_diaglength", 2),
+                 ("diag_entropy", 2), ("laminarity", 2),
+                 ("average_vertlength", 2), ("trapping_time", 2),
+                 ("vert_entropy", 2)):
+        ex.append(Q("%s(2,hist)" % m, m, _meth(m, a, "$hist")))
+    ex.append(Q("permutation_entropy(False)", "permutation_entropy",
+                _meth("permutation_entropy", False)))
+    ex.append(Q("rqa_summary(3,3)", "rqa_summary", _meth("rqa_summary", 3,
+                                                         3)))
+    return ex
+
+
+def rp_table(kind):
+    def build():
+        import pyunicorn.timeseries as ts
+        from pyunicorn.core import Network, InteractingNetworks
+        cls = getattr(ts, RP_KINDS[kind])
+        netbase = set(_public(Network)) | set(_public(InteractingNetworks))
+        if kind == "isrn":
+            tab = build_table(cls, RP_NOT_QUERIES, [], skip_auto=netbase)
+        else:
+            tab = build_table(
+                cls, RP_NOT_QUERIES, rp_explicit(),
+                random_names=RP_RANDOM,
+                skip_auto=netbase if kind in ("rn", "jrn") else (),
+                props=("embedding", "R", "N", "time_series") if kind in (
+                    "rp", "rn") else ("N",))
+        if kind in ("rn", "jrn", "isrn"):
+            base = cached_table("Network", network_table)
+            for k in NET_BASE:
+                tab[k] = base[k]
+        if kind == "crp":
+            for k in ("x_embedded", "y_embedded", "CR"):
+                tab["prop:" + k] = Q("prop:" + k, k, _prop(k))
+        if kind in ("jrp", "jrn"):
+            tab["prop:JR"] = Q("prop:JR", "JR", _prop("JR"))
+        return tab
+    return build
+
+
+def _series(vals, cols):
+    a = np.array(vals, dtype=float) / 4.0
+    return a.reshape(-1, cols) if cols > 1 else a
+
+
+class RecurrenceFamily(Family):
+    name = "Recurrence"
+
+    def cls_name(self, case):
+        return RP_KINDS[case["kind"]]
+
+    def inputs(self, case):
+        cols = case.get("cols", 1)
+        x = _series(case["x"], cols)
+        n = len(x)
+        inp = {"x": x,
+               "ts": np.array(case["x"][:n], dtype=float) / 4.0,
+               "x1": np.array(case["x"][:n], dtype=float) / 4.0,
+               "tarr": np.arange(float(n)),
+               "nts": x.reshape(n, -1).copy(),
+               "hist": np.array([(3 * i + 1) % 4 for i in range(n)],
+                                dtype=np.int64),
+               "dist": np.abs(np.subtract.outer(
+                   np.arange(float(n)), np.arange(float(n)))) / 2.0,
+               "emb": x.reshape(n, -1).copy()}
+        if case["kind"] in ("crp", "jrp", "jrn", "isrn"):
+            inp["y"] = _series(case["y"], cols)
+        return inp
+
+    def construct(self, case, inp):
+        import pyunicorn.timeseries as ts
+        kind = case["kind"]
+        cls = getattr(ts, RP_KINDS[kind])
+        mode, param = case["mode"], case["param"]
+        norm = bool(case.get("normalize"))
+        if kind in ("rp", "rn"):
+            kw = {mode: param}
+            if case.get("dim"):
+                kw.update(dim=case["dim"], tau=1)
+            return cls(inp["x"], metric=case["metric"], normalize=norm,
+                       silence_level=3, **kw)
+        if kind == "crp":
+            return cls(inp["x"], inp["y"], metric=case["metric"],
+                       normalize=norm, silence_level=3, **{mode: param})
+        if kind in ("jrp", "jrn"):
+            return cls(inp["x"], inp["y"],
+                       metric=(case["metric"], case["metric"]),
+                       normalize=norm, lag=case.get("lag", 0),
+                       silence_level=3, **{mode: (param, param)})
+        return cls(inp["x"], inp["y"], metric=case["metric"], normalize=norm,
+                   silence_level=3, **{mode: (param, param, param)})
+
+    def table(self, case):
+        return cached_table("rp:" + case["kind"], rp_table(case["kind"]))
+
+
+RECURRENCE = RecurrenceFamily()
+
+
+@st.composite
+def recurrence_cases(draw):
+    kind = draw(st.sampled_from(sorted(RP_KINDS)))
+    cols = draw(st.sampled_from([1, 1, 2]))
+    n = draw(st.integers(6, 14))
+    m = n if kind in ("jrp", "jrn") else draw(st.integers(5, 12))
+    case = {"kind": kind, "cols": cols,
+            "x": draw(st.lists(st.integers(-12, 12), min_size=n * cols,
+                               max_size=n * cols)),
+            "y": draw(st.lists(st.integers(-12, 12), min_size=m * cols,
+                               max_size=m * cols)),
+            "metric": draw(st.sampled_from(["supremum", "euclidean",
+                                            "manhattan"])),
+            "normalize": draw(st.booleans()),
+            "mode": draw(st.sampled_from(["threshold", "recurrence_rate"])),
+            "dim": draw(st.sampled_from([None, 2])) if cols == 1 and kind in (
+                "rp", "rn") else None,
+            "lag": draw(st.integers(0, 2)) if kind in ("jrp", "jrn") else 0,
+            "seed": draw(st.integers(0, 2 ** 20))}
+    case["param"] = draw(st.sampled_from([0.75, 1.5, 2.5])) \
+        if case["mode"] == "threshold" else draw(st.sampled_from([0.2, 0.4]))
+    case["seq"] = draw(_seq_strategy(sorted(RECURRENCE.table(case))))
+    return case
+
+
+# ========================================================== VisibilityGraph
+
+def vg_table():
+    from pyunicorn.timeseries import VisibilityGraph
+    from pyunicorn.core import Network, InteractingNetworks
+    ex = [Q("visibility(0,2)", "visibility", _meth("visibility", 0, 2)),
+          Q("visibility_single(1)", "visibility_single",
+            _meth("visibility_single", 1))]
+    tab = build_table(VisibilityGraph, NETWORK_NOT_QUERIES, ex,
+                      skip_auto=set(_public(Network)) |
+                      set(_public(InteractingNetworks)),
+                      props=("time_series", "timings"))
+    base = cached_table("Network", network_table)
+    for k in NET_BASE:
+        tab[k] = base[k]
+    return tab
+
+
+class VisibilityFamily(Family):
+    name = "VisibilityGraph"
+
+    def inputs(self, case):
+        x = np.array([np.nan if v is None else v for v in case["x"]],
+                     dtype=float)
+        inp = {"time_series": x}
+        if case.get("t") is not None:
+            inp["timings"] = np.array(case["t"], dtype=float)
+        return inp
+
+    def construct(self, case, inp):
+        from pyunicorn.timeseries import VisibilityGraph
+        return VisibilityGraph(inp["time_series"],
+                               timings=inp.get("timings"),
+                               missing_values=any(v is None
+                                                  for v in case["x"]),
+                               horizontal=bool(case["horizontal"]),
+                               silence_level=3)
+
+    def table(self, case):
+        return cached_table("VisibilityGraph", vg_table)
+
+
+VISIBILITY = VisibilityFamily()
+
+
+@st.composite
+def visibility_cases(draw):
+    n = draw(st.integers(4, 14))
+    x = draw(st.lists(st.integers(0, 9), min_size=n, max_size=n))
+    if draw(st.integers(0, 4)) == 0:
+        x[draw(st.integers(0, n - 1))] = None
+    t = None
+    if draw(st.booleans()):
+        t = [int(v) for v in np.cumsum(draw(st.lists(
+            st.integers(1, 3), min_size=n, max_size=n)))]
+    case = {"x": x, "t": t, "horizontal": draw(st.booleans()),
+            "seed": draw(st.integers(0, 2 ** 20))}
+    case["seq"] = draw(_seq_strategy(sorted(VISIBILITY.table(case))))
+    return case
+
+
+# ================================================================ Surrogates
+
+SURR_NOT_QUERIES = {"normalize_original_data", "cache_clear",
+                    "eval_fast_code"}
+
+
+def _surr_fn(name):
+    from pyunicorn.timeseries import Surrogates
+    return getattr(Surrogates, name)
+
+
+def surrogates_table():
+    from pyunicorn.timeseries import Surrogates
+    ex = [
+        Q("twins(0.5,1)", "twins", _meth("twins", 0.5, 1)),
+        Q("refined_AAFT_surrogates(3)", "refined_AAFT_surrogates",
+          _meth("refined_AAFT_surrogates", 3), rand=True),
+        Q("twin_surrogates(2,1,0.5,1)", "twin_surrogates",
+          _meth("twin_surrogates", 2, 1, 0.5, 1), rand=True),
+        Q("embed_time_series_array(ts,2,1)", "embed_time_series_array",
+          _meth("embed_time_series_array", "$ts", 2, 1, 3)),
+        Q("recurrence_plot(emb,0.5)", "recurrence_plot",
+          _meth("recurrence_plot", "$emb", 0.5, 3)),
+        Q("test_pearson_correlation(ts,sur)", "test_pearson_correlation",
+          _meth("test_pearson_correlation", "$ts", "$sur")),
+        Q("test_mutual_information(ts,sur,4)", "test_mutual_information",
+          _meth("test_mutual_information", "$ts", "$sur", 4)),
+        Q("original_distribution(pearson,5)", "original_distribution",
+          lambda o, inp: o.original_distribution(
+              _surr_fn("test_pearson_correlation"), 5)),
+        Q("test_threshold_significance(white,pearson,2,5)",
+          "test_threshold_significance",
+          lambda o, inp: o.test_threshold_significance(
+              _surr_fn("white_noise_surrogates"),
+              _surr_fn("test_pearson_correlation"), 2, 5), rand=True),
+    ]
+    return build_table(Surrogates, SURR_NOT_QUERIES, ex,
+                       random_names=("white_noise_surrogates",
+                                     "correlated_noise_surrogates",
+                                     "AAFT_surrogates"),
+                       props=("original_data", "embedding"))
+
+
+class SurrogatesFamily(Family):
+    name = "Surrogates"
+    # the constructor stores the caller's array itself (self.original_data =
+    # original_data): once it was modified the object's state is undefined
+    aliased = ("original_data",)
+
+    def inputs(self, case):
+        N, T = case["N"], case["T"]
+        x = np.array(case["data"], dtype=float).reshape(N, T) / 4.0
+        return {"original_data": x, "ts": x.copy() + 0.5,
+                "sur": x[::-1, ::-1].copy(),
+                "emb": np.ascontiguousarray(np.stack([x[0, :-1], x[0, 1:]],
+                                                     axis=1))}
+
+    def construct(self, case, inp):
+        from pyunicorn.timeseries import Surrogates
+        s = Surrogates(inp["original_data"], silence_level=3)
+        # documented way to provide the embedding twins() works on; the same
+        # embedding parameters as the twin_surrogates() pattern of the table
+        s.embedding = Surrogates.embed_time_series_array(
+            inp["original_data"], 2, 1, silence_level=3)
+        return s
+
+    def table(self, case):
+        return cached_table("Surrogates", surrogates_table)
+
+
+SURROGATES = SurrogatesFamily()
+
+
+@st.composite
+def surrogates_cases(draw):
+    N, T = draw(st.integers(1, 3)), draw(st.integers(6, 17))
+    case = {"N": N, "T": T,
+            "data": draw(st.lists(st.integers(-20, 20), min_size=N * T,
+                                  max_size=N * T)),
+            "seed": draw(st.integers(0, 2 ** 20))}
+    case["seq"] = draw(_seq_strategy(sorted(SURROGATES.table(case))))
+    return case
+
+
+# ========================================================== CouplingAnalysis
+
+def coupling_table():
+    from pyunicorn.funcnet import CouplingAnalysis
+    ex = []
+    for lm in ("max", "all"):
+        ex.append(Q("cross_correlation(2,%s)" % lm, "cross_correlation",
+                    _meth("cross_correlation", 2, lm)))
+        for est, kw in (("knn", {"knn": 3}), ("binning", {"bins": 3}),
+                        ("gauss", {})):
+            ex.append(Q("mutual_information(2,%s,%s)" % (est, lm),
+                        "mutual_information",
+                        _meth("mutual_information", 2, est, lag_mode=lm,
+                              **kw)))
+        for est in ("knn", "gauss"):
+            ex.append(Q("information_transfer(2,%s,%s)" % (est, lm),
+                        "information_transfer",
+                        _meth("information_transfer", 2, est, knn=3, past=1,
+                              lag_mode=lm)))
+    ex += [
+        Q("symmetrize_by_absmax(sim,lag)", "symmetrize_by_absmax",
+          _meth("symmetrize_by_absmax", "$sim", "$lag"),
+          inplace_ok=("sim", "lag")),
+        Q("bincount_hist(symb)", "bincount_hist",
+          _meth("bincount_hist", "$symb")),
+        Q("create_plogp(8)", "create_plogp", _meth("create_plogp", 8)),
+        Q("get_nearest_neighbors(nn,xyz,2,True)", "get_nearest_neighbors",
+          _meth("get_nearest_neighbors", "$nn", "$xyz", 2, True)),
+        Q("get_nearest_neighbors(nn,xyz,2,False)", "get_nearest_neighbors",
+          _meth("get_nearest_neighbors", "$nn", "$xyz", 2, False)),
+    ]
+    return build_table(CouplingAnalysis, {"test_data"}, ex,
+                       props=("data",))
+
+
+class CouplingFamily(Family):
+    name = "CouplingAnalysis"
+
+    def inputs(self, case):
+        T, N = case["T"], case["N"]
+        x = np.array(case["data"], dtype=float).reshape(T, N) / 4.0
+        # break exact ties deterministically (kNN estimators need them rare)
+        x = x + 1e-3 * np.sin(np.arange(T * N, dtype=float)).reshape(T, N)
+        sim = np.abs(np.cos(np.arange(N * N, dtype=float))).reshape(N, N)
+        return {"data": x, "sim": sim.astype(np.float32),
+                "lag": (np.arange(N * N).reshape(N, N) % 3).astype(np.int8),
+                "symb": (np.arange(2 * T).reshape(2, T) % 3).astype(np.int32),
+                "nn": np.ascontiguousarray(x[:, :min(N, 3)].T),
+                "xyz": np.array([0, 1, 2][:min(N, 3)])}
+
+    def construct(self, case, inp):
+        from pyunicorn.funcnet import CouplingAnalysis
+        return CouplingAnalysis(inp["data"], silence_level=3)
+
+    def table(self, case):
+        return cached_table("CouplingAnalysis", coupling_table)
+
+
+COUPLING = CouplingFamily()
+
+
+@st.composite
+def coupling_cases(draw):
+    T, N = draw(st.integers(12, 24)), draw(st.integers(2, 4))
+    case = {"T": T, "N": N,
+            "data": draw(st.lists(st.integers(-20, 20), min_size=N * T,
+                                  max_size=N * T)),
+            "seed": draw(st.integers(0, 2 ** 20))}
+    case["seq"] = draw(_seq_strategy(sorted(COUPLING.table(case)), 6))
+    return case
+
+
+# =============================================================== EventSeries
+
+def events_table():
+    from pyunicorn.eventseries import EventSeries
+    ex = []
+    for sym in ("directed", "symmetric", "mean"):
+        ex.append(Q("event_series_analysis(ES,%s)" % sym,
+                    "event_series_analysis",
+                    _meth("event_series_analysis", "ES", sym)))
+    for sym, win in (("directed", "symmetric"), ("max", "retarded"),
+                     ("mean", "advanced")):
+        ex.append(Q("event_series_analysis(ECA,%s,%s)" % (sym, win),
+                    "event_series_analysis",
+                    _meth("event_series_analysis", "ECA", sym, win)))
+    ex += [
+        Q("event_analysis_significance(ECA,analytic,retarded)",
+          "event_analysis_significance",
+          _meth("event_analysis_significance", "ECA", "analytic", 1000,
+                "directed", "retarded")),
+        Q("event_analysis_significance(ECA,analytic,advanced)",
+          "event_analysis_significance",
+          _meth("event_analysis_significance", "ECA", "analytic", 1000,
+                "directed", "advanced")),
+        Q("event_analysis_significance(ES,shuffle,4)",
+          "event_analysis_significance",
+          _meth("event_analysis_significance", "ES", "shuffle", 4),
+          rand=True),
+        Q("event_analysis_significance(ECA,shuffle,4)",
+          "event_analysis_significance",
+          _meth("event_analysis_significance", "ECA", "shuffle", 4),
+          rand=True),
+        Q("event_synchronization(ex,ey)", "event_synchronization",
+          _meth("event_synchronization", "$ex", "$ey", taumax=3.0)),
+        Q("event_synchronization(ex,ey,ts)", "event_synchronization",
+          _meth("event_synchronization", "$ex", "$ey", "$ts1", "$ts2",
+                3.0, 1.0)),
+        Q("event_coincidence_analysis(ex,ey,2)",
+          "event_coincidence_analysis",
+          _meth("event_coincidence_analysis", "$ex", "$ey", 2.0)),
+        Q("event_coincidence_analysis(ex,ey,2,ts)",
+          "event_coincidence_analysis",
+          _meth("event_coincidence_analysis", "$ex", "$ey", 2.0, "$ts1",
+                "$ts2", 1.0)),
+        Q("make_event_matrix(cont)", "make_event_matrix",
+          _meth("make_event_matrix", "$cont", "quantile", 0.7, "above")),
+        Q("make_event_matrix(cont,value)", "make_event_matrix",
+          _meth("make_event_matrix", "$cont", "value", "$thrv", "below")),
+    ]
+    return build_table(EventSeries, {"cache_clear"}, ex)
+
+
+class EventsFamily(Family):
+    name = "EventSeries"
+
+    def inputs(self, case):
+        T, N = case["T"], case["N"]
+        ev = (np.array(case["data"]).reshape(T, N) % 4 == 0).astype(
+            case.get("dtype", "int64"))
+        ev[0, :] = 1
+        ev[1, :] = 0
+        cont = np.array(case["data"], dtype=float).reshape(T, N) / 4.0
+        inp = {"ex": ev[:, 0].copy(), "ey": ev[:, -1].copy(),
+               "ts1": np.arange(float(T)), "ts2": np.arange(float(T)) + 0.5,
+               "cont": cont.copy(), "thrv": np.full(N, 1.5),
+               "timestamps": np.arange(float(T)) * 2.0}
+        if case.get("continuous"):
+            inp["data"] = cont
+        else:
+            inp["data"] = ev
+        return inp
+
+    def construct(self, case, inp):
+        from pyunicorn.eventseries import EventSeries
+        kw = {}
+        if case.get("continuous"):
+            kw = dict(threshold_method="quantile", threshold_values=0.7,
+                      threshold_types="above")
+        if case.get("stamps"):
+            kw["timestamps"] = inp["timestamps"]
+        return EventSeries(inp["data"], taumax=case["taumax"],
+                           lag=case.get("lag", 0.0), **kw)
+
+    def table(self, case):
+        return cached_table("EventSeries", events_table)
+
+
+EVENTS = EventsFamily()
+
+
+@st.composite
+def events_cases(draw):
+    T, N = draw(st.integers(8, 16)), draw(st.integers(2, 4))
+    case = {"T": T, "N": N,
+            "data": draw(st.lists(st.integers(0, 23), min_size=N * T,
+                                  max_size=N * T)),
+            "continuous": draw(st.integers(0, 2)) == 0,
+            "stamps": draw(st.booleans()),
+            "dtype": draw(st.sampled_from(["int64", "int8", "float64"])),
+            "taumax": draw(st.sampled_from([1.0, 2.0, 4.0])),
+            "lag": draw(st.sampled_from([0.0, 0.0, 1.0])),
+            "seed": draw(st.integers(0, 2 ** 20))}
+    case["seq"] = draw(_seq_strategy(sorted(EVENTS.table(case)), 6))
     return case
 
 
@@ -1558,6 +2248,8 @@ SUBCHECKS = [
     SubCheck("geo_pairs", oracle_pair(GEO),
              enum=enum_pairs(GEO, geo_extra),
              quick=(8, None), thorough=(16, None), exhaustive=("thorough",)),
+    SubCheck("spatial_seq", oracle_sequence(SPATIAL), gen=spatial_cases,
+             quick=(2, 40), thorough=(8, 600)),
     SubCheck("interacting_seq", oracle_sequence(INTERACTING),
              gen=interacting_cases, quick=(3, 50), thorough=(16, 800)),
     SubCheck("climate_chain", oracle_sequence(DATA), gen=chain_cases,
@@ -1566,6 +2258,18 @@ SUBCHECKS = [
              quick=(2, 60), thorough=(8, 800)),
     SubCheck("climate_net_seq", oracle_sequence(CLIMNET), gen=climnet_cases,
              quick=(6, 30), thorough=(16, 500)),
+    SubCheck("rainfall_statics", oracle_sequence(RAINSTAT),
+             gen=rainfall_cases, quick=(1, 40), thorough=(2, 400)),
+    SubCheck("recurrence_seq", oracle_sequence(RECURRENCE),
+             gen=recurrence_cases, quick=(4, 60), thorough=(16, 1000)),
+    SubCheck("visibility_seq", oracle_sequence(VISIBILITY),
+             gen=visibility_cases, quick=(1, 60), thorough=(4, 800)),
+    SubCheck("surrogates_seq", oracle_sequence(SURROGATES),
+             gen=surrogates_cases, quick=(2, 60), thorough=(8, 1000)),
+    SubCheck("coupling_seq", oracle_sequence(COUPLING), gen=coupling_cases,
+             quick=(2, 40), thorough=(8, 600)),
+    SubCheck("events_seq", oracle_sequence(EVENTS), gen=events_cases,
+             quick=(2, 40), thorough=(8, 600)),
     SubCheck("resistive_seq", oracle_sequence(RES), gen=res_cases,
              quick=(2, 40), thorough=(8, 600)),
 ]
